@@ -271,6 +271,20 @@ func (p *Prog) resCheckFunc(c *Ctx, f *Func, typeFilter, why string) int {
 			leakAt = d.n
 		}
 		if leakAt != nil {
+			// confirm with feasible reachability (error variables that only
+			// record an earlier failure, as after helper inlining)
+			var starts []*Node
+			for _, e := range d.n.Succs {
+				if !cut(e) && !avoid(e.To) {
+					starts = append(starts, e.To)
+				}
+			}
+			fr := p.FeasibleReach(f, starts, avoid, cut)
+			if !fr[leakAt] {
+				leakAt = nil
+			}
+		}
+		if leakAt != nil {
 			where := "the function returns"
 			if leakAt == d.n {
 				where = "the next loop iteration overwrites it"
